@@ -162,3 +162,23 @@ PROPS["C05"] = {
     ],
     "assumptions": ["usize additions of borders do not overflow (inputs fit in memory)"],
 }
+
+PROPS["C11"] = {
+    "props": ["Props/C11.v"],
+    "run": ["Run/ReadmeRun.v"],
+    "tables": ["T1", "T3", "T7"],
+    "n_quick": 600,
+    "n_thorough": 6000,
+    "trusted_base": TB_COMMON + [
+        "Model/Readme.v: hand-written PEG interpreter implementing pest 2.x semantics as read from pest's generator and ParserState (ordered choice, greedy repetition, look-ahead, implicit WHITESPACE skipping between the operands of `~` and the iterations of `*`/`+` in non-atomic rules only, `@`/`_` modifiers, `e+` unrolled to `e ~ e*`, whole-input match as SOI ~ narsese ~ EOI); pest itself is not available offline, so the interpreter is not differentially tested against pest",
+        "tools/t7_readme.py (table T7): pest-syntax parser for the README block (fails closed on constructs the interpreter lacks), rule-by-rule comparison with README.en.md, keyword lists of the lexical ASCII format",
+        "Unicode general categories L/N/P/S (pest LETTER/NUMBER/PUNCTUATION/SYMBOL) from Python unicodedata (Unicode 14.0), tied to Rust std (is_numeric, is_alphanumeric, is_ascii_punctuation, is_ascii_alphabetic) on every character the generated texts use and on all of ASCII; White_Space from Rust std (Gen/Unicode.v)",
+        "opennars_lexicon (Model/Readme.v): the OpenNARS ASCII keyword table written out by hand from the OpenNARS wiki grammar the README refers to",
+        "the real ASCII lexical parser is the reference for kind and tree; the enum formatter model (Model/EnumFormatter.v) and the lexical formatter model / enum->lexical tree map (Model/Readme.v) are compared with the real output on every case",
+    ],
+    "assumptions": [
+        "well-formed = the library's own name rules (non-empty identifier, no leading atom prefix, no leading/trailing '-') restricted to characters that are atom_chars of the grammar (categories L, N, '_' , '-'); names with the K4 pattern are the known class K4",
+        "f64 Display prints the numbers of a well-formed value (range [0,1], C13) as non-empty strings of ASCII digits and '.' (hypothesis of C11_enum; checked on every float of every case)",
+        "'pest semantics' is the hand-written interpreter Model/Readme.v (pest is not available offline)",
+    ],
+}
